@@ -251,7 +251,7 @@ fn resource_leaf(framed: bool) -> BoxedStrategy<E> {
 }
 
 /// long chain in random first-occurrence order
-fn chain_strategy(max: usize) -> BoxedStrategy<E> {
+pub fn chain_strategy(max: usize) -> BoxedStrategy<E> {
     (any::<bool>(), 0..max)
         .prop_flat_map(|(framed, n)| proptest::collection::vec((resource_leaf(framed), 0u8..3), n.max(1)))
         .prop_map(|leaves| {
